@@ -1317,6 +1317,18 @@ func (g *Gen) faultTx() Op {
 			break
 		}
 		s := li.shards[r.Intn(len(li.shards))]
+		// mostly a shard that is stored and still within its paid period (the only kind a report may name)
+		if r.Chance(75) {
+			live := []ordertypes.Shard{}
+			for _, x := range li.shards {
+				if x.Status == ordertypes.ShardCompleted && int64(x.CreatedAt+x.Duration) > g.W.C.Height {
+					live = append(live, x)
+				}
+			}
+			if len(live) > 0 {
+				s = live[r.Intn(len(live))]
+			}
+		}
 		var ord *ordertypes.Order
 		for i := range li.orders {
 			for _, id := range li.orders[i].Shards {
@@ -1330,7 +1342,7 @@ func (g *Gen) faultTx() Op {
 		}
 		prov = g.acctIndex(s.Sp) + 1
 		f := FaultIn{DataId: ord.DataId, OrderId: ord.Id, ShardId: s.Id, CommitId: "no-such-commit", Provider: prov}
-		switch r.Intn(12) {
+		switch r.Intn(24) {
 		case 0:
 			f.CommitId = ord.Commit // report: skipped (contains); recover: required
 		case 1:
